@@ -7,8 +7,10 @@ Property theorems only (helper lemmas: `Lemmas/Raster.lean`; model: `Model/Raste
 `getCell`, `scatter`, `cellValue`, `aggregates` are the models of `Raster.getCell`,
 `Raster.addCollectionToRaster`, the `co_*` cell operators and `Raster.computeAggregates`.
 Scalars: any linearly ordered field with a floor function (`ℚ`, `ℝ`); `floor`/`ceil` are `Int.floor`/`Int.ceil`.
-A feature value `none` is NaN. `WF g` says the grid is the one the constructor builds on a bounding box of
-positive width and height with positive resolution (`ncol = ⌈(xmax-xmin)/rx⌉`, `nrow = ⌈(ymax-ymin)/ry⌉`). -/
+A feature value `none` is NaN. `WF g` says the grid is the one the constructor builds on a bounding box
+`xmin ≤ xmax`, `ymin ≤ ymax` — zero width and zero height included: all observations on one vertical or horizontal
+line, a single observation — with positive resolution (`ncol = max 1 ⌈(xmax-xmin)/rx⌉`,
+`nrow = max 1 ⌈(ymax-ymin)/ry⌉`; the `max 1` is the `fix:` commit bdf8515). -/
 namespace TV.C19
 open TV.Raster
 variable {α : Type} [Field α] [LinearOrder α] [IsStrictOrderedRing α] [FloorRing α]
@@ -16,7 +18,8 @@ variable {α : Type} [Field α] [LinearOrder α] [IsStrictOrderedRing α] [Floor
 /-- T1. Every point of the extent is assigned a cell of the grid (`0 ≤ column < ncol`, `0 ≤ line < nrow`, lines
 counted from the top) whose footprint — `[xmin + c·rx, xmin + (c+1)·rx) × [ymin + (nrow-1-r)·ry, ymin + (nrow-r)·ry)`,
 closed on the right for the last column and on the top for line 0 — contains it; and it is the only cell of the
-grid whose footprint contains the point. -/
+grid whose footprint contains the point. This includes the grids of zero width / height (one column / one row):
+there `x = xmin` lies in column 0 = `[xmin, xmin + rx)`, `y = ymin` in line 0 = `[ymin, ymin + ry)`. -/
 theorem cell_footprint (g : Grid α) (hg : WF g) (x y : α)
     (hx : g.xmin ≤ x ∧ x ≤ g.xmax) (hy : g.ymin ≤ y ∧ y ≤ g.ymax) :
     ∃ c r : ℤ, getCell Int.floor g x y = some (c, r) ∧ 0 ≤ c ∧ c < g.ncol ∧ 0 ≤ r ∧ r < g.nrow ∧ InCell g c r x y
@@ -58,8 +61,8 @@ theorem conservation {V : Type} (g : Grid α) (hg : WF g) (obs : List (α × α 
     intro o ho
     obtain ⟨c, r, h, c0, c1, r0, r1, _⟩ := getCell_footprint g hg o.1 o.2.1 (hin o ho).1 (hin o ho).2
     refine ⟨c, r, h, c0, ?_, r0, ?_⟩
-    · rw [Int.toNat_of_nonneg (by omega)]; exact c1
-    · rw [Int.toNat_of_nonneg (by omega)]; exact r1
+    · rw [Int.toNat_of_nonneg hg.ncol_pos.le]; exact c1
+    · rw [Int.toNat_of_nonneg hg.nrow_pos.le]; exact r1
   obtain ⟨cells, hsc, hR, hcells⟩ := scatterBy_spec (fun o : α × α × V => getCell Int.floor g o.1 o.2.1)
     (fun o => o.2.2) g.nrow.toNat g.ncol.toNat obs _ (rect_empty _ _) hrange
   have hcells' : ∀ i j, cellAt cells i j
@@ -112,14 +115,14 @@ theorem aggregates_entry (noData : α) (op : Op) (c : Cells (Option α)) (i j : 
   unfold aggregates cellAt
   simp [hi, hj]
 
-/-- End to end. For a collection whose extent has positive width and height (two different x and two different
-y among the observations), positive resolution and margin ≥ 0, `summarize` does not fail: it builds a well-formed
-grid covering every observation, and returns, per operator, `computeAggregates` of the cells `cells`, where the
-cell in line `i`, column `j` holds exactly the values of the observations that `getCell` locates there (so that
-T1, T2, T3 apply to the returned grids). -/
+/-- End to end. For EVERY non-empty collection — a north-south or east-west line of observations and a single
+observation included, whose extent has no width or no height —, positive resolution and margin ≥ 0, `summarize`
+does not fail: it builds a well-formed grid (at least one column and one row) covering every observation, and
+returns, per operator, `computeAggregates` of the cells `cells`, where the cell in line `i`, column `j` holds exactly
+the values of the observations that `getCell` locates there (so that T1, T2, T3 apply to the returned grids).
+Before bdf8515 this needed two different x and two different y among the observations. -/
 theorem summarize_spec (obs : List (α × α × Option α)) (rx ry margin noData : α) (ops : List Op)
-    (hrx : 0 < rx) (hry : 0 < ry) (hm : 0 ≤ margin)
-    (hwx : ∃ o ∈ obs, ∃ o' ∈ obs, o.1 < o'.1) (hwy : ∃ o ∈ obs, ∃ o' ∈ obs, o.2.1 < o'.2.1) :
+    (hrx : 0 < rx) (hry : 0 < ry) (hm : 0 ≤ margin) (hne : obs ≠ []) :
     ∃ (g : Grid α) (cells : Cells (Option α)),
       summarize Int.floor Int.ceil noData obs rx ry margin ops
         = some (g, ops.map (fun op => aggregates noData op cells))
@@ -128,20 +131,16 @@ theorem summarize_spec (obs : List (α × α × Option α)) (rx ry margin noData
       ∧ Rect cells g.nrow.toNat g.ncol.toNat
       ∧ ∀ i j, cellAt cells i j
           = located (fun o : α × α × Option α => getCell Int.floor g o.1 o.2.1) (fun o => o.2.2) j i obs := by
-  obtain ⟨o1, ho1, o2, ho2, hlt⟩ := hwx
-  obtain ⟨p1, hp1, p2, hp2, hlty⟩ := hwy
-  have hxs : obs.map (fun o => o.1) ≠ [] := by
-    intro h; rw [List.map_eq_nil_iff] at h; rw [h] at ho1; simp at ho1
-  have hys : obs.map (fun o => o.2.1) ≠ [] := by
-    intro h; rw [List.map_eq_nil_iff] at h; rw [h] at ho1; simp at ho1
-  obtain ⟨bx0, e1, _, hbx0⟩ := minOf_spec _ hxs
+  have hxs : obs.map (fun o => o.1) ≠ [] := fun h => hne (List.map_eq_nil_iff.1 h)
+  have hys : obs.map (fun o => o.2.1) ≠ [] := fun h => hne (List.map_eq_nil_iff.1 h)
+  obtain ⟨bx0, e1, mbx0, hbx0⟩ := minOf_spec _ hxs
   obtain ⟨bx1, e2, _, hbx1⟩ := maxOf_spec _ hxs
-  obtain ⟨by0, e3, _, hby0⟩ := minOf_spec _ hys
+  obtain ⟨by0, e3, mby0, hby0⟩ := minOf_spec _ hys
   obtain ⟨by1, e4, _, hby1⟩ := maxOf_spec _ hys
   have mx : ∀ o ∈ obs, o.1 ∈ obs.map (fun o => o.1) := fun o ho => List.mem_map.2 ⟨o, ho, rfl⟩
   have my : ∀ o ∈ obs, o.2.1 ∈ obs.map (fun o => o.2.1) := fun o ho => List.mem_map.2 ⟨o, ho, rfl⟩
-  have hx : bx0 < bx1 := lt_of_le_of_lt (hbx0 _ (mx o1 ho1)) (lt_of_lt_of_le hlt (hbx1 _ (mx o2 ho2)))
-  have hy : by0 < by1 := lt_of_le_of_lt (hby0 _ (my p1 hp1)) (lt_of_lt_of_le hlty (hby1 _ (my p2 hp2)))
+  have hx : bx0 ≤ bx1 := hbx1 _ mbx0
+  have hy : by0 ≤ by1 := hby1 _ mby0
   obtain ⟨hwf, hc1, hc2, hc3, hc4⟩ := mkGrid_wf bx0 bx1 by0 by1 rx ry margin hx hy hrx hry hm
   have hin : ∀ o ∈ obs, ((mkGrid Int.ceil bx0 bx1 by0 by1 rx ry margin).xmin ≤ o.1
         ∧ o.1 ≤ (mkGrid Int.ceil bx0 bx1 by0 by1 rx ry margin).xmax)
@@ -151,8 +150,7 @@ theorem summarize_spec (obs : List (α × α × Option α)) (rx ry margin noData
      ⟨le_trans hc3 (hby0 _ (my o ho)), le_trans (hby1 _ (my o ho)) hc4⟩⟩
   obtain ⟨cells, hsc, hR, hcells, _, _⟩ := conservation _ hwf obs hin
   have hnrow : ¬ ((mkGrid Int.ceil bx0 bx1 by0 by1 rx ry margin).nrow ≤ 0) := by
-    have : 0 < (mkGrid Int.ceil bx0 bx1 by0 by1 rx ry margin).nrow := by
-      rw [hwf.nrow]; exact Int.ceil_pos.2 (div_pos (by linarith [hwf.wy]) hwf.ry)
+    have : 0 < (mkGrid Int.ceil bx0 bx1 by0 by1 rx ry margin).nrow := hwf.nrow_pos
     omega
   refine ⟨_, cells, ?_, hwf, hin, hR, hcells⟩
   unfold summarize
@@ -172,11 +170,33 @@ theorem rat_floor_ceil (q : ℚ) : Int.floor q = Rat.floor q ∧ Int.ceil q = Ra
 def demoGrid : Grid ℚ := { xmin := 0, xmax := 2, ymin := 0, ymax := 2, rx := 1, ry := 1, ncol := 2, nrow := 2 }
 example : WF demoGrid := by
   refine ⟨by decide, by decide, by decide, by decide, ?_, ?_⟩ <;>
-  · show (2 : ℤ) = ⌈((2 : ℚ) - 0) / 1⌉
+  · show (2 : ℤ) = max 1 ⌈((2 : ℚ) - 0) / 1⌉
     norm_num
 /-- the centre lies in column 1, line 0; the top-right corner too (closed outer border); the origin in (0, 1) -/
 example : getCell Rat.floor demoGrid 1 1 = some (1, 0) ∧ getCell Rat.floor demoGrid 2 2 = some (1, 0)
     ∧ getCell Rat.floor demoGrid 0 0 = some (0, 1) := by decide +kernel
+/-- a grid of zero width: the three observations of a north-south line (1,0), (1,1), (1,2), unit cells -/
+def lineGrid : Grid ℚ := { xmin := 1, xmax := 1, ymin := 0, ymax := 2, rx := 1, ry := 1, ncol := 1, nrow := 2 }
+example : WF lineGrid := by
+  refine ⟨by decide, by decide, by decide, by decide, ?_, ?_⟩
+  · show (1 : ℤ) = max 1 ⌈((1 : ℚ) - 1) / 1⌉
+    norm_num
+  · show (2 : ℤ) = max 1 ⌈((2 : ℚ) - 0) / 1⌉
+    norm_num
+/-- it is the grid the constructor builds on that line, and the three points get the cells of the single column:
+(0, 1), (0, 0) and, on the closed top border, (0, 0) -/
+example : (mkGrid Rat.ceil 1 1 0 2 1 1 0).ncol = 1 ∧ (mkGrid Rat.ceil 1 1 0 2 1 1 0).nrow = 2
+    ∧ getCell Rat.floor lineGrid 1 0 = some (0, 1) ∧ getCell Rat.floor lineGrid 1 1 = some (0, 0)
+    ∧ getCell Rat.floor lineGrid 1 2 = some (0, 0) := by decide +kernel
+/-- `summarize` of the inputs of the defect repaired by bdf8515: a north-south line (count grid `[[2],[1]]`), an
+east-west line (`[[1, 2]]`), a single observation (`[[1]]`) — none raises -/
+example :
+    (summarize Rat.floor Rat.ceil (-99999 : ℚ) [(1, 0, some 1), (1, 1, some 1), (1, 2, none), (1, 2, some 5)] 1 1 0 [.count, .max]).map (·.2)
+      = some [[[2], [1]], [[5], [1]]]
+    ∧ (summarize Rat.floor Rat.ceil (-99999 : ℚ) [(0, 2, some 1), (1, 2, some 1), (2, 2, some 1)] 1 1 0 [.count]).map (·.2)
+      = some [[[1, 2]]]
+    ∧ (summarize Rat.floor Rat.ceil (-99999 : ℚ) [(0, 2, some 1)] 1 1 (1/4) [.count]).map (·.2) = some [[[1]]] := by
+  decide +kernel
 /-- the operators on a cell holding NaN, 1, 2 (the input of the defect repaired by 90d9915 / 4b05560) -/
 example : coMin [none, some (1 : ℚ), some 2] = some 1 ∧ coMax [none, some (1 : ℚ), some 2] = some 2
     ∧ coCount [none, some (1 : ℚ), some 2] = 2 ∧ coMedian [none, some (1 : ℚ), some 2] = some (3 / 2)
